@@ -20,7 +20,7 @@ def run_e2e(args):
     out = []
     for a in args:
         root = a["root"]
-        ds, written = I.build_dataset(root, a["fmt"], a["comp"], a["eps"], a["plan"])
+        ds, written = I.build_dataset(root, a["fmt"], a["comp"], a["eps"], a["plan"], hashes=None if a.get("hashes") is None else tuple(a["hashes"]))
         ds = Dataset(root)
         enum, enum_err = I.safe_enumeration(ds)
         rec = {"case": {k: a[k] for k in a if k != "root"}, "written": written, "enum_error": enum_err,
@@ -67,6 +67,28 @@ def run_e2e(args):
             except BaseException as e:  # noqa: BLE001
                 rec["runs"].append({"iface": "rust", "split": live[0], "shuffle": 0, "T": 2, "take": 0, "interleaved": True,
                                     "error": f"{type(e).__name__}: {str(e)[:200]}"})
+        # the same handle, after it has iterated: a further session adds shards, then repeating streams are started again — they
+        # cycle through the whole split as it is now (a freshly opened dataset gives the reference enumeration)
+        if a.get("append"):
+            split0 = next((s for s in written if written[s]), None)
+            try:
+                with ds.filler() as f:
+                    for v in range(10 ** 5, 10 ** 5 + a["append"]):
+                        f.write_example(values=sp.val(v), split=split0)
+                fresh, _ = I.safe_enumeration(Dataset(root))
+                onepass = [x for sh in fresh.get(split0, []) for x in sh]
+                for iface in ("sync", "concurrent", "async", "tf", "rust"):
+                    if not I.supports(iface, a["fmt"], a["comp"]):
+                        continue
+                    take = 2 * len(onepass) + 1
+                    try:
+                        got, _ = I.run_iface(ds, iface, split0, shuffle=0, T=2, repeat=True, take=take)
+                        rec["runs"].append({"iface": iface, "split": split0, "shuffle": 0, "T": 2, "take": take, "got": got, "after_append": True, "onepass": onepass})
+                    except Exception as e:  # noqa: BLE001
+                        rec["runs"].append({"iface": iface, "split": split0, "shuffle": 0, "T": 2, "take": take, "after_append": True, "onepass": onepass,
+                                            "error": f"{type(e).__name__}: {str(e)[:200]}"})
+            except Exception as e:  # noqa: BLE001
+                rec["runs"].append({"iface": "filler", "split": split0, "shuffle": 0, "T": 1, "take": 0, "after_append": True, "error": f"append session: {type(e).__name__}: {str(e)[:200]}"})
         out.append(rec)
         shutil.rmtree(root, ignore_errors=True)
     return out
@@ -85,7 +107,9 @@ def run(ctx):
             plan.append({"sub": "x", "writes": [(0, eps + 1)]})
         configs = [(0, 1), (0, 3), (2, 2), (1000, 3)] if ctx.thorough else [(0, 1 + i % 3), (2 + i, 2)]
         cases.append({"root": str(ctx.scratch / f"c19_{i}"), "fmt": fmt, "comp": comp, "eps": eps, "plan": plan, "configs": configs,
-                      "m": ctx.pick(3, 6), "r": rng.choice([0, 1, 2])})
+                      "m": ctx.pick(3, 6), "r": rng.choice([0, 1, 2]),
+                      # (no checksum algorithm at all is a legal configuration; every other case continues writing through the handle that iterated)
+                      "hashes": [None, [], ["sha256"]][i % 3], "append": [0, 3][i % 2] if i % 3 != 1 else 3})
     recs = []
     for i in range(0, len(cases), 4):
         recs += child.call("harness.checks.c19", "run_e2e", cases[i:i + 4], timeout=1500)
@@ -97,9 +121,10 @@ def run(ctx):
         for run_ in r["runs"]:
             nruns += 1
             split = run_["split"]
-            onepass = [x for sh in r["shards"][split] for x in sh]
+            onepass = run_.get("onepass") or [x for sh in r["shards"][split] for x in sh]
             N = len(onepass)
-            sig = {"kind": "repeat", "iface": run_["iface"], "shuffled": run_["shuffle"] > 0, "interleaved": bool(run_.get("interleaved")), "batched": bool(run_.get("batch"))}
+            sig = {"kind": "repeat", "iface": run_["iface"], "shuffled": run_["shuffle"] > 0, "interleaved": bool(run_.get("interleaved")), "batched": bool(run_.get("batch")),
+                   "after_append": bool(run_.get("after_append"))}
             if "error" in run_:
                 ctx.report(dict(sig, kind="repeat-error"), f"{run_['iface']} repeat=True raised {run_['error']}", {"case": r["case"], "run": run_}); continue
             got = run_["got"]
